@@ -357,7 +357,7 @@ func panicSweep(idx, n int, maxLen int) {
 func main() {
 	r = explore.Start("C18")
 	if r.Replay != "" {
-		r.Fault("replay: decode detail.encoded with the consumer named in detail.part; not implemented")
+		r.ReplayBySearch()
 	}
 	if idx, n, arg, ok := r.Worker(); ok {
 		r.Watchdog(60 * time.Second)
